@@ -1212,6 +1212,8 @@ class Unit:
         Returns (function name, [argument texts for the captures], return ctype)."""
         n = self.strip_tmp(n)
         while n['kind'] in ('ImplicitCastExpr', 'CXXConstructExpr', 'MaterializeTemporaryExpr', 'CXXBindTemporaryExpr', 'CXXFunctionalCastExpr') and self.kids(n): n = self.strip_tmp(self.kids(n)[0])
+        if n['kind'] == 'DeclRefExpr' and (n.get('referencedDecl') or {}).get('id') in getattr(self, 'lambda_vars', {}):
+            return self.lift_lambda(self.lambda_vars[n['referencedDecl']['id']])
         if n['kind'] != 'LambdaExpr': raise Unsupported('expected a lambda, got %s (in %s)' % (n['kind'], self.cur))
         rec = [c for c in n.get('inner', []) if c.get('kind') == 'CXXRecordDecl'][0]
         op = [c for c in rec.get('inner', []) if c.get('kind') == 'CXXMethodDecl' and c.get('name') == 'operator()'][0]
@@ -1603,6 +1605,10 @@ class Unit:
             self.by_id[v['id']] = v; self.canon[v['id']] = v['id']
             self.qname[v['id']] = self.cur + '::' + name
             self.local_names[v['id']] = (self.need_global(v['id']), False)
+            return
+        if v.get('type', {}).get('qualType', '').startswith('(lambda at') and self.kids(v):
+            # `auto pred = [..](..){..};`: nothing is emitted here; the lambda is lifted where the variable is used (algorithm / wait helpers)
+            self.lambda_vars = getattr(self, 'lambda_vars', {}); self.lambda_vars[v['id']] = self.kids(v)[0]
             return
         txt, is_ref = self.decl_text(v, name)
         self.local_names[v['id']] = (name, is_ref); self.local_decls[v['id']] = v
